@@ -32,9 +32,9 @@ class Store {
     st().requests.push_back(std::make_pair(std::string(T::vp_ctype()), key));
     auto it = st().ev->store.find(std::string(T::vp_coll()) + "/" + key);
     if (it == st().ev->store.end()) return StatusCode::FAILURE;
-    std::shared_ptr<T> c(T::vp_make(it->second));
-    st().keep.push_back(c);
-    out = c.get();
+    const T *c = T::vp_fetch(it->second);
+    if (!c) return StatusCode::FAILURE;
+    out = c;
     return StatusCode::SUCCESS;
   }
 };
